@@ -676,6 +676,68 @@ func stressCase(c *ev.Case) {
 	c.Distinct(ev.HashString(desc))
 }
 
+// bigCapCase: one goroutine, large requested capacities around powers of two.
+// Nothing is in flight, so the ring must accept exactly Cap() values (whatever
+// Cap() is), refuse one more, and return all of them in FIFO order.
+var bigCaps = func() []int {
+	var out []int
+	for k := 4; k <= 18; k++ {
+		p := 1 << k
+		out = append(out, p-1, p, p+1, p+2, p+p/2+1)
+	}
+	return append(out, 65537, 98305, 131073, 131074, 196609, 262145)
+}()
+
+func bigCapCase(c *ev.Case) {
+	req := bigCaps[c.Index%len(bigCaps)]
+	var r ringz.SyncRing[int]
+	if !c.Guard("NewSync", func() { r = ringz.NewSync[int](req) }) {
+		return
+	}
+	capacity := r.Cap()
+	c.Logf("NewSync(%d): Cap=%d", req, capacity)
+	if capacity < req {
+		c.Failf("bigcap", "NewSync(%d).Cap() = %d is smaller than the requested capacity", req, capacity)
+		return
+	}
+	bad := ""
+	c.Guard("fill/drain", func() {
+		for i := 0; i < capacity; i++ {
+			if !r.Push(i) {
+				bad = fmt.Sprintf("Push #%d returned false with nothing in flight on a ring holding %d of Cap()=%d", i, i, capacity)
+				return
+			}
+		}
+		if r.Push(-5) {
+			bad = fmt.Sprintf("Push succeeded on a ring already holding Cap()=%d values", capacity)
+			return
+		}
+		if r.Len() != capacity || !r.IsFull() || r.IsEmpty() {
+			bad = fmt.Sprintf("quiescent full ring: Len=%d IsFull=%v IsEmpty=%v, Cap()=%d", r.Len(), r.IsFull(), r.IsEmpty(), capacity)
+			return
+		}
+		for i := 0; i < capacity; i++ {
+			v, ok := r.Pop()
+			if !ok || v != i {
+				bad = fmt.Sprintf("Pop #%d = (%d,%v) with nothing in flight, FIFO order wants (%d,true)", i, v, ok, i)
+				return
+			}
+		}
+		if _, ok := r.Pop(); ok || r.Len() != 0 || !r.IsEmpty() {
+			bad = fmt.Sprintf("quiescent drained ring: Len=%d IsEmpty=%v", r.Len(), r.IsEmpty())
+		}
+	})
+	if bad != "" {
+		c.Failf("bigcap", "NewSync(%d): %s", req, bad)
+		return
+	}
+	c.Add("bigcap_cases", 1)
+	c.Distinct(ev.Mix(uint64(req), 777))
+	if c.WantSample() {
+		c.Sample(fmt.Sprintf("bigcap: NewSync(%d), Cap()=%d: filled, overflow refused, drained in FIFO order, one goroutine", req, capacity))
+	}
+}
+
 func main() {
 	r := ev.New("C01")
 	r.Rule("controlled: one case = (ring configuration, per-thread operation lists, schedule trace) drawn from the seed; distinct = distinct hash of configuration+program+trace among runs with at least one context switch. free-running: distinct = distinct canonical history (operations, results, order of call/return events) with at least one overlapping pair. stress: distinct parameter sets.")
@@ -688,6 +750,7 @@ func main() {
 		fmt.Println("note: counter seek unusable:", why)
 	}
 
+	r.Cases("bigcap", len(bigCaps), ev.Opt{Workers: 4, HangViolation: true}, bigCapCase)
 	nctl := r.N(60000, 3000000)
 	r.CasesProc("ctl", nctl, ev.Opt{Bin: "shim", Procs: 14}, ctlCase)
 	if r.Thorough() {
